@@ -388,6 +388,11 @@ func (p *Parser) parseQualifiedRule() GrammarType {
 	}
 }
 
+// isCombinator returns true for the selector punctuation that whitespace is not kept next to.
+func isCombinator(data []byte) bool {
+	return len(data) == 1 && (data[0] == ',' || data[0] == '>' || data[0] == '+' || data[0] == '~')
+}
+
 // isWordToken returns true for tokens that would merge or change meaning when written next to each other without whitespace.
 func isWordToken(tt TokenType) bool {
 	return tt == IdentToken || tt == StringToken || tt == NumberToken || tt == DimensionToken || tt == PercentageToken || tt == HashToken
@@ -405,7 +410,8 @@ func (p *Parser) parseQualifiedRuleDeclarationList() GrammarType {
 }
 
 func (p *Parser) parseDeclaration() GrammarType {
-	var offset int // first colon offset
+	var offset int        // first colon offset
+	var commentOnly []int // whitespace tokens in the buffer that stand for a comment without whitespace around it
 	p.initBuf()
 	p.pushBuf(p.tt, p.data)
 	for {
@@ -462,7 +468,27 @@ func (p *Parser) parseDeclaration() GrammarType {
 			p.prevEnd = (tt == RightBraceToken)
 			return DeclarationGrammar
 		} else if tt == LeftBraceToken && p.level == 0 && p.isStylesheet {
-			// nested ruleset
+			// nested ruleset: its selector keeps whitespace where the selector of a top-level ruleset keeps it
+			j, inAttrSel := 0, false
+			for i, t := range p.buf {
+				if t.TokenType == WhitespaceToken {
+					if 0 < len(commentOnly) && commentOnly[0] == i {
+						// in a selector a comment does not separate: .a/**/.b is .a.b
+						commentOnly = commentOnly[1:]
+						continue
+					}
+					if j == 0 || i+1 == len(p.buf) || isCombinator(p.buf[j-1].Data) || isCombinator(p.buf[i+1].Data) || inAttrSel && !(isWordToken(p.buf[j-1].TokenType) && isWordToken(p.buf[i+1].TokenType)) {
+						continue
+					}
+				} else if t.TokenType == LeftBracketToken {
+					inAttrSel = true
+				} else if t.TokenType == RightBracketToken {
+					inAttrSel = false
+				}
+				p.buf[j] = t
+				j++
+			}
+			p.buf = p.buf[:j]
 			p.tt = WhitespaceToken
 			p.data = emptyBytes
 			p.state = append(p.state, (*Parser).parseQualifiedRuleDeclarationList)
@@ -477,6 +503,9 @@ func (p *Parser) parseDeclaration() GrammarType {
 			p.level--
 		}
 		if (p.prevWS || p.prevComment) && p.buf[len(p.buf)-1].TokenType != WhitespaceToken {
+			if !p.prevWS {
+				commentOnly = append(commentOnly, len(p.buf))
+			}
 			p.pushBuf(WhitespaceToken, wsBytes)
 		}
 		p.pushBuf(tt, data)
